@@ -23,6 +23,7 @@ class Ctx:
         self.analysed = {}
         self.notes = []
         self.exceptions = []     # (rule, symbol, reason) exception-table entries actually applied
+        self.floor_failures = []  # instance floors not reached: ANALYSIS-ERROR unless a violation is reported anyway
 
     def ob(self, rule, fn, construct, ok, detail='', node=None, nontrivial=True, expected=''):
         """record an obligation.  fn: Fn or 'rel::qual' string; construct: AST node or str"""
@@ -49,7 +50,7 @@ class Ctx:
         """instance floor: a rule that matches fewer constructs than confirmed by hand is analysis-broken"""
         self.analysed['%s: %s' % (rule, what)] = found
         if found < minimum:
-            raise AnalysisError('%s: found %d %s, hand-confirmed floor is %d (anchor moved or idiom changed; '
+            self.floor_failures.append('%s: found %d %s, hand-confirmed floor is %d (anchor moved or idiom changed; '
                                 'the rule would pass vacuously)' % (rule, found, what, minimum))
 
     def exception(self, rule, symbol, reason):
@@ -127,9 +128,12 @@ def run_property(prop, tier='quick', replay=None, root=None, write_evidence=True
     if st is not None:
         emit('%s self-test: %d mutants, %d detected, %d missed, %d stale' % (
             prop, st['mutants'], st['detected'], len(st['missed']), len(st['stale'])))
+    for ff in ctx.floor_failures: emit('FLOOR-NOT-REACHED property=%s %s' % (prop, ff))
     if write_evidence and replay is None:
         write_ev(prop, mod, ctx, tier, seed, time.time() - t0, viol, kf, st, stale)
     code = 1 if viol else 0
+    if not viol and ctx.floor_failures:
+        emit('ANALYSIS-ERROR property=%s instance floor not reached (see FLOOR-NOT-REACHED lines)' % prop); code = 2
     if st is not None and (st['missed'] or st['clean_alarm']):
         emit('ANALYSIS-ERROR property=%s checker validation failed: missed=%s clean_alarm=%s' % (prop, st['missed'], st['clean_alarm']))
         code = code or 2
